@@ -46,6 +46,12 @@ and equal to the sum of log2(1 + SINR) of the oracle's own SINRs where the true 
 1100 bits (K = 40 users x 3 streams at ordinary SINR; K = 12 isolated links at noise 1e-30 / 1e-300)
 and where 1 + SINR rounds to 1 (the 120 streams at noise 1e6 / 1e20).
 
+Part L (layout histories): one channel object (plain and ExtInt), every sequence up to depth 3 of
+{set_pathloss P1|P2, init_from_channel_matrix / randomize into ANOTHER layout with the same total
+antennas (same K other split; other K same totals), touch IC|JP}; after every sequence all
+channel-object relations (IC and JP SINR, Q, B_kl, external-interference covariances) against the
+oracle built from the check's own copy of the unscaled matrix x sqrt(path loss) per block.
+
 Part H (object reuse, engine E3): for every (class, layout, Ns, member) of hist_configs() a
 breadth-first exploration of every event history up to the depth bound over ONE channel object
 and ONE solver bound to it.  Events: set_pathloss(None | P1(,E1) | P2(,E2)), noise_var = None | 0 |
@@ -131,7 +137,8 @@ SOLVERS_THOROUGH = ["IASolverBaseClass", "ClosedFormIASolver", "MaxSinrIASolver"
 FMODES = ["F_P1", "F_Pvec", "fullF"]
 # further legal argument combinations of set_precoders (python lists as containers); "backoff":
 # an explicit full_F = b_k sqrt(P_k) F_k with b_k != 1 next to F (and P)
-FMODES_EXTRA = ["fullF_P", "F_fullF_backoff", "F_fullF_P_backoff"]
+FMODES_EXTRA = ["fullF_P", "F_fullF_backoff", "F_fullF_P_backoff", "F_Pint"]
+P_INT = [1, 3, 2, 5]        # powers as integers (array of ints / python int scalar)
 WMODES = ["W", "W_H"]
 
 
@@ -535,8 +542,22 @@ def sinr_matches(case, got, ref, parts, extra_kappa=None):
     return True
 
 
+def noise_presentations(value):
+    """other presentations of the same scalar: (name, object)"""
+    out = []
+    if float(np.float32(value)) == float(value):
+        out.append(("np.float32", np.float32(value)))
+    if float(value) == int(value):
+        out += [("int", int(value)), ("np.int64", np.int64(value))]
+    else:
+        out.append(("np.float64", np.float64(value)))
+    if isinstance(value, int):
+        out.append(("float", float(value)))
+    return out
+
+
 def compare_sinr(chk, view, rel, case, got, ref, parts, extra_kappa=None, record=True,
-                 den_scale=None):
+                 den_scale=None, tag=None):
     """got / ref: [k][l]; returns number of compared streams.  den_scale[k][l]: factor by which the
     denominator of `parts` is multiplied in the evaluated call (rescaled filters); it only serves
     to NAME a violation (coarse condition of the signature), never to decide it"""
@@ -558,6 +579,7 @@ def compare_sinr(chk, view, rel, case, got, ref, parts, extra_kappa=None, record
                 den = sum(parts[k][l][1:])        # (both sides of a lib-vs-lib relation count)
                 den = min(den, den * (den_scale[k][l] if den_scale is not None else 1.0))
                 cond = (("nonzero_denominator_below_2^-52",) if 0 < den < EPS
+                        else (tag,) if tag is not None
                         else (stream_class(Ns[k]), noise_class(case)))
                 chk.fail((view, rel) + cond, case,
                          observed="SINR[%d][%d]=%r" % (k, l, float(got[k][l])),
@@ -691,6 +713,10 @@ def run_chan_case(case, chk, live=None):
             if float(case["pe"]) == int(case["pe"]):
                 variants.append(("int", lambda: fn(objarr(Fl), objarr(Ul), int(case["pe"]))))
                 variants.append(("float", lambda: fn(objarr(Fl), objarr(Ul), float(case["pe"]))))
+                variants.append(("np.int64", lambda: fn(objarr(Fl), objarr(Ul),
+                                                        np.int64(case["pe"]))))
+                variants.append(("np.float32", lambda: fn(objarr(Fl), objarr(Ul),
+                                                          np.float32(case["pe"]))))
             for vname, call in variants:
                 got_v = call()
                 chk.count("eval_pe_argument_forms")
@@ -698,6 +724,19 @@ def run_chan_case(case, chk, live=None):
                            for k in range(K)):
                     chk.fail((view, name, "pe_argument_form", vname), case, observed=list(got_v),
                              expected=list(got))
+
+        # 3b. the same noise variance through every scalar presentation (an int, a numpy integer,
+        #     np.float32 ... must behave like the equal-valued python float)
+        if not live and case["noise"] is not None and case["noise"] > 0:
+            for pname, pres in noise_presentations(case["noise"]):
+                ch.noise_var = pres
+                got_v = fn(objarr(Fl), objarr(Ul), *pe_args)
+                chk.count("eval_noise_var_presentations")
+                if check_shape(chk, view, name + "_noise_" + pname, case, got_v, Ns):
+                    compare_sinr(chk, view, name + "_noise_var_presentation", case, got_v,
+                                 [[float(v) for v in got[k]] for k in range(K)], parts,
+                                 record=False, tag=pname)
+            ch.noise_var = case["noise"]
 
         # 3. pe omitted == pe = 1.0
         if ext and case["pe"] is None and not live:
@@ -802,6 +841,9 @@ def solver_inputs(case, inp):
     elif fmode == "fullF":
         P = None
         fullF = [inp["F"][k] * (1.7 + 0.9 * k) for k in range(K)]           # arbitrary scale
+    elif fmode == "F_Pint":
+        P = np.array(P_INT[:K], dtype=int)
+        fullF = [Fn[k] * math.sqrt(float(P[k])) for k in range(K)]
     elif fmode == "fullF_P":
         P = np.array(P_UNEQUAL[:K], dtype=float)
         fullF = [inp["F"][k] * (1.7 + 0.9 * k) for k in range(K)]           # used as given
@@ -858,7 +900,14 @@ def run_solver_case(case, chk, live=None):
         def make_solver(Wmats):
             sol = cls(ch)
             fm = case["fmode"]
-            if fm in FMODES_EXTRA:
+            if fm == "F_Pint":
+                # integers: a python list of ints through set_precoders, or the P setter afterwards
+                if case["wmode"] == "W":
+                    sol.set_precoders(F=[np.array(m) for m in Fn], P=[int(v) for v in P])
+                else:
+                    sol.set_precoders(F=[np.array(m) for m in Fn])
+                    sol.P = np.array(P, dtype=np.int64)
+            elif fm in FMODES_EXTRA:
                 kw = dict(full_F=[np.array(m) for m in fullF])          # python lists
                 if "F_" in fm:
                     kw["F"] = [np.array(m) for m in Fn]
@@ -946,6 +995,26 @@ def run_solver_case(case, chk, live=None):
                 compare_sinr(chk, view, "solver_vs_channel_object", case, got,
                              [[float(v) for v in got_ch[k]] for k in range(K)], parts2,
                              record=False)
+
+        # the noise variance of the channel object through other scalar presentations
+        if not live and case["noise"] is not None and case["noise"] > 0:
+            for pname, pres in noise_presentations(case["noise"]):
+                if pname not in ("int", "np.float32"):
+                    continue
+                ch.noise_var = pres
+                got_v = make_solver(W).calc_SINR()
+                chk.count("eval_noise_var_presentations")
+                if check_shape(chk, view, "calc_SINR_noise_" + pname, case, got_v, Ns):
+                    compare_sinr(chk, view, "calc_SINR_noise_var_presentation", case, got_v,
+                                 [[float(v) for v in got[k]] for k in range(K)], parts,
+                                 extra_kappa=conds, record=False, tag=pname)
+                got_c = ch.calc_SINR(sol.full_F, sol.full_W)
+                if not ignores_ext and check_shape(chk, view, "channel_calc_SINR_noise_" + pname,
+                                                   case, got_c, Ns):
+                    compare_sinr(chk, view, "solver_vs_channel_object_noise_var_presentation", case,
+                                 got, [[float(v) for v in got_c[k]] for k in range(K)], parts2,
+                                 record=False, tag=pname)
+            ch.noise_var = case["noise"]
 
         # rescaling the filter columns handed to the solver
         for r in range(0 if live else rescale_rounds(chk)):
@@ -1055,7 +1124,7 @@ def check_shape_db(chk, view, case, got, Ns):
 # populate the lazily filled caches - without them a rebuilt state never has a warm cache).  In
 # every reached state ALL state-dependent relations are evaluated against the first-principles
 # oracle of the CURRENT model state (path loss, noise, channel member, precoders, filters, powers).
-H_NOISES = NOISES + [1e-13, 1e-20]
+H_NOISES = [None, 0, 0.1, 2, 1e-13, 1e-20]      # (2 is a python int here, 2.0 in Part 1)
 EV_FULL = ([("pl", 0), ("pl", 1), ("pl", 2), ("pl", 3)] +
            [("noise", i) for i in range(len(H_NOISES))] +
            [("init", 1), ("init", 0), ("rand", 2)] +
@@ -1854,8 +1923,209 @@ def run_capacity_case(case, chk):
 
 
 # ----------------------------------------------------------------------
+# Part L: histories that change the antenna LAYOUT of one channel object after a path loss was set
+# ----------------------------------------------------------------------
+# All layouts have the same total numbers of rx / tx antennas (5 x 5), so every matrix derived from
+# the old layout still has the right SHAPE: L0 -> L1 same K other split, L0 -> L2 other K same
+# totals, L3 other split on one side only.
+L_LAYOUTS = [([2, 3], [3, 2], [2, 2]), ([3, 2], [2, 3], [2, 2]), ([2, 2, 1], [1, 2, 2], [1, 2, 1]),
+             ([2, 3], [2, 3], [2, 1])]
+L_EVENTS_QUICK = [("pl", 1), ("init", 1), ("init", 2), ("rand", 1), ("touch", "JP"), ("touch", "IC")]
+L_EVENTS_THOROUGH = L_EVENTS_QUICK + [("pl", 2), ("pl", 0), ("init", 3), ("rand", 0), ("rand", 2),
+                                      ("noise", 2)]
+L_EVENT_NAME = {"pl": "set_pathloss", "init": "init_from_channel_matrix_other_layout",
+                "rand": "randomize_other_layout", "touch": "touch", "noise": "noise_var"}
+
+
+def layout_units(tier):
+    evs = L_EVENTS_THOROUGH if tier == "thorough" else L_EVENTS_QUICK
+    depth = 3
+    for chan, NtE in (("plain", None), ("ext", 1)) + ((("ext", [1, 1]),) if tier == "thorough" else ()):
+        base = dict(kind="layout", chan=chan, NtE=NtE, s=0, offs=_offs(), depth=depth)
+        yield dict(base, first=None)
+        for ev in evs:
+            yield dict(base, first=list(ev))
+
+
+def layout_data(cfg):
+    ntE = nte_list(cfg)
+    H = {j: gen(cfg, 21, 60 + j, (5, 5 + sum(ntE))) for j in range(8)}     # member per (event, layout)
+    PL = {}
+    for K in (2, 3):
+        PL[K] = {0: None}
+        for i, idx in ((1, 1), (2, 5)):
+            g = gen(cfg, 24, idx + 10 * K, (K, K + len(ntE)))
+            PL[K][i] = 0.02 + 1.3 * (np.abs(g) - 0.1) ** 2
+    lay = []
+    for j, (Nr, Nt, Ns) in enumerate(L_LAYOUTS):
+        K = len(Nr)
+        lay.append(dict(Nr=Nr, Nt=Nt, Ns=Ns, K=K,
+                        F=[gen(cfg, 22, 70 + 8 * j + k, (Nt[k], Ns[k])) for k in range(K)],
+                        Fjp=[gen(cfg, 25, 110 + 8 * j + k, (sum(Nt), Ns[k])) for k in range(K)],
+                        U=[gen(cfg, 23, 150 + 8 * j + k, (Nr[k], Ns[k])) for k in range(K)]))
+    return dict(ntE=ntE, H=H, PL=PL, lay=lay)
+
+
+def layout_model(seq):
+    """reference model: (layout, channel member, path loss id or 'unknown', noise)"""
+    m = dict(lay=0, mem=0, pl=0, noise=None, last="constructed")
+    for kind, arg in seq:
+        if kind == "touch":
+            continue
+        m["last"] = L_EVENT_NAME[kind]
+        if kind == "pl":
+            m["pl"] = arg
+        elif kind == "noise":
+            m["noise"] = H_NOISES[arg]
+        else:
+            newK = len(L_LAYOUTS[arg][0])
+            if newK != len(L_LAYOUTS[m["lay"]][0]) and m["pl"] != 0:
+                m["pl"] = "unknown"      # a K x K path loss cannot describe the new number of users:
+                #                          the user has to set a new one (nothing is required before)
+            m["lay"] = arg
+            m["mem"] = arg + (4 if kind == "rand" else 0)
+    return m
+
+
+def layout_build(cfg, data, seq):
+    from pyphysim.channels import multiuser
+    from vmc import seams
+    ext = cfg["chan"] == "ext"
+    NtE_arg = _nte_arg(cfg)
+    ch = multiuser.MultiUserChannelMatrixExtInt() if ext else multiuser.MultiUserChannelMatrix()
+    pe = (0.5,) if ext else ()
+
+    def init(j, mem):
+        L = data["lay"][j]
+        args = (np.array(data["H"][mem], copy=True), np.array(L["Nr"]), np.array(L["Nt"]), L["K"])
+        ch.init_from_channel_matrix(*(args + ((NtE_arg,) if ext else ())))
+
+    init(0, 0)
+    for i, (kind, arg) in enumerate(seq):
+        m = layout_model(seq[:i])
+        L = data["lay"][m["lay"]]
+        if kind == "pl":
+            PLm = data["PL"][L["K"]][arg]
+            if PLm is None:
+                ch.set_pathloss(None)
+            elif ext:
+                ch.set_pathloss(np.array(PLm[:, :L["K"]], copy=True),
+                                np.array(PLm[:, L["K"]:], copy=True))
+            else:
+                ch.set_pathloss(np.array(PLm, copy=True))
+        elif kind == "noise":
+            ch.noise_var = H_NOISES[arg]
+        elif kind == "init":
+            init(arg, arg)
+        elif kind == "rand":
+            L2 = data["lay"][arg]
+
+            def fake(_rs, *shape, H2=data["H"][arg + 4]):
+                assert tuple(int(v) for v in shape) == H2.shape, (shape, H2.shape)
+                return np.array(H2, copy=True)
+            with seams.patched((multiuser, "randn_c_RS", fake)):
+                a_ = (np.array(L2["Nr"]), np.array(L2["Nt"]), L2["K"])
+                ch.randomize(*(a_ + ((NtE_arg,) if ext else ())))
+        elif kind == "touch":
+            try:
+                if arg == "IC":
+                    ch.calc_SINR(objarr(L["F"]), objarr(L["U"]), *pe)
+                else:
+                    ch.calc_JP_SINR(objarr(L["Fjp"]), objarr(L["U"]), *pe)
+                    ch.calc_JP_Q(0, objarr(L["Fjp"]), *pe)
+            except Exception:       # noqa
+                if m["pl"] != "unknown":
+                    raise
+    return ch
+
+
+def _layout_observe_raw(chk, cfg, data, seq, ch):
+    m = layout_model(seq)
+    if m["pl"] == "unknown":
+        chk.count("layout_observations_skipped_pathloss_of_other_K")
+        return
+    L = data["lay"][m["lay"]]
+    ext = cfg["chan"] == "ext"
+    # ground truth independent of H / get_Hkl: the check's own copy of the unscaled matrix and of the
+    # K x K (+ Ke) path loss, expanded per block by the oracle
+    inp = dict(K=L["K"], ntE=data["ntE"], Hraw=data["H"][m["mem"]], PL=data["PL"][L["K"]][m["pl"]],
+               F=L["F"], Fjp=L["Fjp"], U=L["U"])
+    mk = (m["lay"], m["mem"], m["pl"], repr(m["noise"]))
+    sub = dict(kind="hist", chan=cfg["chan"], NtE=cfg["NtE"], Nr=L["Nr"], Nt=L["Nt"], Ns=L["Ns"],
+               s=cfg["s"], offs=cfg["offs"], cls=None, hist=[list(e) for e in seq], noise=m["noise"],
+               pl=m["pl"], fmode="layout", wmode="layout", int_layout=False, model_key=repr(mk))
+    cname = "chan_plain" if not ext else "chan_extint"
+    for var, pe in (("IC", 0.5 if ext else None), ("JP", None)):
+        run_chan_case(dict(sub, var=var, pe=pe), chk,
+                      live=dict(view="layout|%s_%s" % (cname, var), ch=ch, inp=inp))
+    chk.outcome("layout_history_state", (cfg["chan"], repr(cfg["NtE"])) + mk)
+
+
+def run_layout_sequence(cfg, data, seq, chk):
+    case = dict(cfg, seq=[list(e) for e in seq])
+    with chk.guard(("layout_history", cfg["chan"]), case):
+        tmp = chk.child_check()
+        _layout_observe_raw(tmp, cfg, data, seq, layout_build(cfg, data, seq))
+        state = tmp.state()
+        viol = state["violations"]
+        state["violations"] = {}
+        chk.absorb(state)
+        chk.count("eval_layout_history_sequences")
+        if not viol:
+            return
+
+        def failing(sq):
+            t2 = chk.child_check()
+            try:
+                _layout_observe_raw(t2, cfg, data, sq, layout_build(cfg, data, sq))
+            except Exception as e:      # noqa
+                t2.fail(("layout", "exception", type(e).__name__), None, observed=repr(e))
+            return t2.violations or None
+
+        pre, v2 = tuple(seq), viol
+        i = 0
+        while i < len(pre):
+            cand = pre[:i] + pre[i + 1:]
+            got = failing(cand)
+            if got:
+                pre, v2 = cand, got
+            else:
+                i += 1
+        names = sorted(set(v["sig"][1] if v["sig"][1] != "exception" else "|".join(v["sig"][1:])
+                           for v in v2.values()))
+        primary = next((r for r in REL_PRIORITY if r in names), names[0])
+        last = next((L_EVENT_NAME[k] for k, _ in reversed(pre) if k != "touch"), "constructed")
+        first = sorted(v2.values(), key=lambda v: (v["sig"][1] != primary, v["sig"]))[0]
+        chk.fail(("layout_history", "extint" if cfg["chan"] == "ext" else "plain",
+                  "wrong_after_" + last, primary), dict(cfg, seq=[list(e) for e in pre]),
+                 observed=first["observed"], expected=first["expected"],
+                 msg="minimal failing sub-sequence of %r; failing relations: %s"
+                     % ([list(e) for e in seq],
+                        sorted(set("%s:%s" % (v["sig"][0].split("|")[-1], v["sig"][1])
+                                   for v in v2.values()))))
+
+
+def run_layout_unit(unit, chk):
+    cfg = {k: v for k, v in unit.items() if k not in ("first", "seq")}
+    data = layout_data(cfg)
+    if "seq" in unit:                                   # replay
+        run_layout_sequence(cfg, data, tuple(tuple(e) for e in unit["seq"]), chk)
+        return
+    evs = L_EVENTS_THOROUGH if chk.tier == "thorough" else L_EVENTS_QUICK
+    if unit["first"] is None:
+        run_layout_sequence(cfg, data, (), chk)
+        return
+    first = tuple(unit["first"])
+    for n in range(cfg["depth"]):
+        for rest in itertools.product(evs, repeat=n):
+            run_layout_sequence(cfg, data, (first,) + tuple(rest), chk)
+
+
+# ----------------------------------------------------------------------
 def run_case(case, chk):
-    if case["kind"] == "capacity":
+    if case["kind"] == "layout":
+        run_layout_unit(case, chk)
+    elif case["kind"] == "capacity":
         run_capacity_case(case, chk)
     elif case["kind"] == "multi":
         run_multi_unit(case, chk)
@@ -1911,6 +2181,8 @@ def main(chk: Check):
     chk.extra["filter_rescale_factors"] = [repr(f) for f in FACTORS]
     ncase = sum(1 for _ in all_cases(chk.tier))
     chk.extra["enumerated_cases"] = ncase
+    chk.extra["layout_history_units"] = sum(1 for _ in layout_units(chk.tier))
+    chk.extra["layout_history_layouts"] = [list(l) for l in L_LAYOUTS]
     chk.extra["capacity_scale_cases"] = sum(1 for _ in capacity_cases(chk.tier))
     chk.extra["scale_cases"] = sum(1 for _ in scale_cases(chk.tier))
     chk.extra["scale_families"] = [n for n, _ in SCALES] + [
@@ -1925,7 +2197,8 @@ def main(chk: Check):
 
     def worker(i, n, c):
         # the (heavier) history units first so that they spread evenly over the workers
-        for case in shard(itertools.chain(capacity_cases(c.tier), hist_units(c.tier),
+        for case in shard(itertools.chain(capacity_cases(c.tier), layout_units(c.tier),
+                                          hist_units(c.tier),
                                           multi_units(c.tier), scale_cases(c.tier),
                                           all_cases(c.tier)), i, n):
             run_case(case, c)
@@ -1944,6 +2217,7 @@ def main(chk: Check):
     chk.require_outcomes("configuration", 100)
     chk.require_outcomes("history_model_state", 200)
     chk.require_outcomes("history_depth", 2)
+    chk.require_outcomes("layout_history_state", 12)
     regimes = chk.outcomes.get("capacity_regime", set())
     for need in (("many_streams", "above_%d_bits" % CAP_BITS),
                  ("isolated_links", "above_%d_bits" % CAP_BITS),
